@@ -190,6 +190,7 @@ type ChanCfg struct {
 	Until bool
 	WBuf  int // > 0: the channel's transport is the real buffering wrapper transport.NewTransport(conn, RBuf, WBuf)
 	RBuf  int // with WBuf: read buffering too (the wrapper variant buffering both directions)
+	Wrap  bool // without WBuf: the unbuffered wrapper transport.NewTransport(conn, RBuf, 0) the tcp transport uses
 }
 
 func (c ChanCfg) String() string {
@@ -200,6 +201,11 @@ func (c ChanCfg) String() string {
 			return fmt.Sprintf("%s over a transport buffering both directions (read %d, write %d bytes)", d.String(), c.RBuf, c.WBuf)
 		}
 		return fmt.Sprintf("%s over a %d-byte write-buffered transport", d.String(), c.WBuf)
+	}
+	if c.Wrap {
+		d := c
+		d.Wrap = false
+		return fmt.Sprintf("%s over the unbuffered transport wrapper (read buffer %d)", d.String(), c.RBuf)
 	}
 	if !c.Async {
 		return "sync"
@@ -236,6 +242,8 @@ func (e *Env) NewRig(cc ChanCfg, execDelay bool, handlers ...netty.Handler) *Rig
 	if cc.WBuf > 0 {
 		tr = transport.NewTransport(r.Conn, cc.RBuf, cc.WBuf)
 		r.Buffered = true
+	} else if cc.Wrap {
+		tr = transport.NewTransport(r.Conn, cc.RBuf, 0)
 	}
 	r.Ch = cc.Factory()(1, r.Ctx, r.Pl, tr, r.X)
 	return r
